@@ -20,6 +20,7 @@ func propC16(c *Check) {
 	c.Rule("R5", "writers of Relayer, Voters and Queue")
 	c.Rule("R6", "members are distinct: a voter record created at run time is stored only when its address is absent and after the existing voters were consulted with the new vote key (a branch on a lookup that receives the key and reads the voter records)")
 	c.freshVotersAreDistinct("R6")
+	c.voteKeyRepresentation("R6")
 	c.Rule("R7", "an imported relayer group is well-formed: genesis import refuses a proposer that is also listed among the voters")
 	c.genesisRefusesProposerAmongVoters("R7")
 
